@@ -429,7 +429,29 @@ def multi_cases(rng: Rng, tier):
         yield fn, kw, ("rnd-multi", n)
 
 
+def wide_cases(rng: Rng, tier):
+    """many classes / labels × many thresholds: the flattened histogram key space 2·T·C of the multiclass / multilabel kernels passes
+    2^13 … 2^15 (61 or 99 classes × 100 thresholds, 41 × 200) — index arithmetic that is exact for a handful of classes must stay exact
+    here; both optimisation modes, judged by per-threshold counting and against each other."""
+    plans = [(61, 100), (99, 100), (41, 200)] if tier == "thorough" else [rng.choice([(61, 100), (99, 100)]), (41, 200)]
+    for S, T in plans:
+        n = 24
+        x = ft(rng.grid(n * S, GRID_X), shape=(n, S))
+        for fn in ("multiclass_binned_precision_recall_curve", "multilabel_binned_precision_recall_curve", "multiclass_binned_auprc", "multilabel_binned_auprc"):
+            kw = {"input": x}
+            if fn.startswith("multiclass"):
+                kw["target"] = it([rng.randrange(S) for _ in range(n)]); kw["num_classes"] = S
+            else:
+                kw["target"] = it([rng.choice([0, 1]) for _ in range(n * S)], shape=(n, S)); kw["num_labels"] = S
+            kw["threshold"] = T
+            kw["optimization"] = rng.choice(["vectorized", "memory"])
+            if not fn.endswith("curve"):
+                kw["average"] = rng.choice(["macro", None])
+            yield fn, kw, ("wide", S)
+
+
 def all_cases(rng, tier):
+    yield from wide_cases(rng, tier)
     yield from binary_cases(rng, tier)
     yield from multi_cases(rng, tier)
 
